@@ -66,6 +66,17 @@ def c07_cases(ctx, bound):
                 except IndexError:
                     v = 'IndexError'
                 ctx.case('planar plaq {} {} {}'.format(R, C, idx(i)), v, meta={'tag': tag})
+        # operator read-back on random Paulis
+        for _ in range(4):
+            v = np.array([ctx.rng.randint(0, 1) for _ in range(2 * code.n_k_d[0])])
+            q = code.new_pauli(v)
+            for r in range(-1, mr + 2):
+                for c in range(-1, mc + 2):
+                    try:
+                        o = q.operator((r, c))
+                    except IndexError:
+                        o = 'IndexError'
+                    ctx.case('planar opat {} {} {} {}'.format(R, C, bits(v), idx((r, c))), o, nontrivial=(o != 'IndexError'))
         if sorted(flats) != list(range(code.n_k_d[0])):
             ctx.monitor_fail('lattice-index <-> qubit map is not a bijection onto range(n)', {'code': tag})
     # constructor domain
